@@ -273,6 +273,13 @@ pub fn shim_btreemap_keys_copied_collect<K: Ord + Copy, V>(m: &BTreeMap<K, V>) -
 {
     m.keys().copied().collect()
 }
+/// N2 shim for `ITER.into_iter().collect()` into a Vec from a caller-chosen IntoIterator (content unspecified: the
+/// caller's iterator is arbitrary code)
+#[verifier::external_body]
+pub fn shim_intoiter_collect_vec<I: IntoIterator>(it: I) -> (r: Vec<I::Item>)
+{
+    it.into_iter().collect()
+}
 /// `SET.append(&mut OTHER)` for BTreeSets
 #[verifier::external_body]
 pub fn shim_btreeset_append<T: Ord>(s: &mut BTreeSet<T>, other: &mut BTreeSet<T>)
